@@ -595,9 +595,20 @@ def check_functions(P, ctx, summ):
             ef.index(('setbuf', -1)) > ef.index(('depth', 1))
     ctx.check(ok, rule, 'exception_try:push', site(ex),
               'every normal path pushes exactly one buffer (depth+1, buffers[depth-1]=env after the increment) and clears `active`')
-    guard = any(p['result'] == ('abort',) and any(a[0] == 'depth' and v and a[1] in ('==', '>=') for a, v in p['guards']) for p in ps) and \
-        all(any(a[0] == 'depth' for a, v in p['guards']) for p in normal)
-    ctx.check(guard, rule, 'exception_try:overflow-guard', site(ex), 'a full buffer stack aborts before the push')
+    def feasible(p_, d_):
+        # the path's tests on the depth, evaluated for a concrete depth (tests on anything else do not restrict)
+        for a, v in p_['guards']:
+            if a[0] == 'depth' and isinstance(a[2], int) and a[1] in ('==', '!=', '<', '<=', '>', '>='):
+                t_ = {'==': d_ == a[2], '!=': d_ != a[2], '<': d_ < a[2], '<=': d_ <= a[2], '>': d_ > a[2], '>=': d_ >= a[2]}[a[1]]
+                if t_ != bool(v):
+                    return False
+        return True
+    MAXD = P.enums.get('EXCEPTION_MAX_DEPTH')
+    if MAXD is None:
+        MAXD = max([a[2] for p_ in ps for a, v in p_['guards'] if a[0] == 'depth' and isinstance(a[2], int)] or [0])
+    guard = bool(MAXD) and all(p_['result'] == ('abort',) for p_ in ps if feasible(p_, MAXD)) and any(feasible(p_, MAXD) for p_ in ps) and \
+        all(p_['result'][0] == 'ret' for d_ in (0, 1, MAXD - 1) for p_ in ps if feasible(p_, d_))
+    ctx.check(guard, rule, 'exception_try:overflow-guard', site(ex), 'a full buffer stack aborts before the push (paths evaluated for depth 0, 1, max-1 and max)')
     # exception_try_end
     fe = P.fn('exception_try_end')
     ps = summ['exception_try_end']
@@ -605,9 +616,9 @@ def check_functions(P, ctx, summ):
     ok = bool(normal) and all([e for e in p['effects'] if e[0] in ('depth', 'depth_set')] == [('depth', -1)] for p in normal) and \
         all(not any(e[0] in ('active', 'obj', 'setbuf') for e in p['effects']) for p in normal)
     ctx.check(ok, rule, 'exception_try_end:pop', site(fe), 'every normal path pops exactly one buffer and touches nothing else')
-    guard = any(p['result'] == ('abort',) and (('depth', '==', 0), True) in p['guards'] for p in ps) and \
-        all((('depth', '==', 0), False) in p['guards'] for p in normal)
-    ctx.check(guard, rule, 'exception_try_end:underflow-guard', site(fe), 'depth 0 aborts instead of wrapping around')
+    guard = any(feasible(p_, 0) for p_ in ps) and all(p_['result'] == ('abort',) for p_ in ps if feasible(p_, 0)) and \
+        all(p_['result'][0] == 'ret' for d_ in (1, 2, 2048) for p_ in ps if feasible(p_, d_))
+    ctx.check(guard, rule, 'exception_try_end:underflow-guard', site(fe), 'depth 0 aborts instead of wrapping around (paths evaluated for depth 0, 1, 2, 2048)')
     # exception_try_fail
     ff = P.fn('exception_try_fail')
     ps = summ['exception_try_fail']
